@@ -608,6 +608,8 @@ func runC17(c *rt.Ctx) {
 			}
 		}
 	})
+	// the caller refills one buffer with document after document (all five types, every []byte entry point)
+	refillRun(c, c.Pick(30000, 300000), "date", "date-json", "roman", "sem", "size", "size-text", "uu")
 	c.Require("instantiation-agreement-on-accepted", 10000)
 	c.Require("instantiation-agreement-on-rejected", 10000)
 }
